@@ -248,9 +248,10 @@ pub fn fmt_show<T: std::fmt::Debug + std::fmt::Display + ?Sized>(t: &T, x: u8) -
 // ---------------------------------------------------------------------------------------------
 // explicit-parameter unmock form (arguments deliberately listed in swapped order)
 
-#[unimock(api = ExplMock, unmock_with = [real_e0(y, self, x)])]
+// (the argument names are deliberately not in alphabetical order)
+#[unimock(api = ExplMock, unmock_with = [real_e0(ay, self, zx)])]
 pub trait Expl {
-    fn e0(&self, x: u8, y: u8) -> u64;
+    fn e0(&self, zx: u8, ay: u8) -> u64;
 }
 
 pub fn real_e0(y: u8, u: &Unimock, x: u8) -> u64 {
